@@ -192,21 +192,22 @@ func evalMutant(c mutCase) (o outcome) {
 			o.notes = append(o.notes, fmt.Sprintf("inconclusive (not a violation): %s: %s", c.id(), u))
 		}
 	}
-	if vj.MS > 5000 || vy.MS > 5000 {
+	if vj.CPUMS > 5000 || vy.CPUMS > 5000 {
 		o.label("slow")
-		o.notes = append(o.notes, fmt.Sprintf("slow: %s json=%dms yaml=%dms", c.id(), vj.MS, vy.MS))
+		o.notes = append(o.notes, fmt.Sprintf("slow (CPU): %s json=%dms yaml=%dms", c.id(), vj.CPUMS, vy.CPUMS))
 	}
 	o.label("outcome:%s@%s", vj.Class, vj.Stage)
 	o.nontrivial = vj.Class != vb.Class || vj.Stage != vb.Stage || stripPositions(vj.Err, jsonName) != stripPositions(vb.Err, jsonName)
 	o.sample = map[string]any{"case": c, "fault_at": pointerOf(base.keyPath(c.Path)), "outcome": vj.Class + "@" + vj.Stage, "err": clip(vj.Err, 300)}
 
 	// oracle A
-	if f := totality(vj, "JSON"); f != nil {
+	sh := shape{Fault: c.Fault, Arg: c.Arg, KeyPath: a.Target}
+	if f := totality(vj, "JSON", sh); f != nil {
 		o.finding = f
 		return o
 	}
 	if ixY != nil {
-		if f := totality(vy, "YAML"); f != nil {
+		if f := totality(vy, "YAML", sh); f != nil {
 			o.finding = f
 			return o
 		}
@@ -233,15 +234,27 @@ func evalMutant(c mutCase) (o outcome) {
 
 	// oracle B(3): both spellings agree (class, stage, message, node).
 	// ogen walks components in Go map order, so which of several errors is
-	// reported can change from run to run of the SAME text; a disagreement is
-	// therefore re-run (both spellings, up to 5 more times) and only counts when
-	// no pair of runs agrees.
+	// reported (and through which chain of references it is reached) can change
+	// from run to run of the SAME text. A disagreement is therefore re-run: it
+	// counts only when each spelling keeps giving its own single answer (24 runs
+	// each); when a spelling contradicts itself the comparison is inconclusive.
 	if ixY != nil {
 		if f := metamorphic(a, vj, vy, ixJ, ixY); f != nil {
 			js, ys := []verdict{vj}, []verdict{vy}
-			agreed := false
+			sigs := func(vs []verdict) int {
+				m := map[string]bool{}
+				for _, v := range vs {
+					m[fmt.Sprintf("%s|%s|%s|%v", v.Class, v.Stage, stripPositions(v.Err, jsonName, yamlName), v.Locs)] = true
+				}
+				return len(m)
+			}
+			state := "differ"
 		retry:
-			for i := 0; i < 5; i++ {
+			for i := 0; i < 24; i++ {
+				if i >= 5 && (sigs(js) > 1 || sigs(ys) > 1) {
+					state = "inconclusive"
+					break
+				}
 				var rj, ry verdict
 				var w2 sync.WaitGroup
 				w2.Add(2)
@@ -251,18 +264,25 @@ func evalMutant(c mutCase) (o outcome) {
 				js, ys = append(js, rj), append(ys, ry)
 				for _, x := range js {
 					for _, y := range ys {
-						if totality(x, "") == nil && totality(y, "") == nil && metamorphic(a, x, y, ixJ, ixY) == nil {
-							vj, vy, agreed = x, y, true
+						if totality(x, "", sh) == nil && totality(y, "", sh) == nil && metamorphic(a, x, y, ixJ, ixY) == nil {
+							vj, vy, state = x, y, "agreed"
 							break retry
 						}
 					}
 				}
 			}
-			if !agreed {
+			switch state {
+			case "differ":
+				f.What += fmt.Sprintf(" [stable over %d runs of each spelling]", len(js))
 				o.finding = f
 				return o
+			case "agreed":
+				o.label("spellings:agree-after-rerun(nondeterministic-diagnostic)")
+			default:
+				o.label("spellings:inconclusive(nondeterministic-diagnostic)")
 			}
-			o.label("nondeterministic-diagnostic")
+		} else if vj.Class == "error" {
+			o.label("spellings:agree")
 		}
 	}
 
@@ -367,6 +387,9 @@ var faultWeights = []struct {
 	{"cycle", 10}, {"dupname", 10}, {"num", 10}, {"deep", 4},
 }
 
+// drawMutant: rapid supplies entropy only (its integer generators are biased
+// towards small values on purpose, which would favour the first fault kinds and
+// the first sites); the choices are spread uniformly by hashing the drawn words.
 func drawMutant(bases []*baseSpec) func(t *rapid.T) mutCase {
 	var faults []string
 	for _, fw := range faultWeights {
@@ -375,24 +398,33 @@ func drawMutant(bases []*baseSpec) func(t *rapid.T) mutCase {
 		}
 	}
 	return func(t *rapid.T) mutCase {
+		w := rapid.SliceOfN(rapid.Uint64(), 3, 3).Draw(t, "entropy")
 		for try := 0; ; try++ {
-			b := bases[rapid.IntRange(0, len(bases)-1).Draw(t, "base")]
-			f := rapid.SampledFrom(faults).Draw(t, "fault")
+			pick := func(what string, n int) int { return int(hash64(w, try, what) % uint64(n)) }
+			b := bases[pick("base", len(bases))]
+			f := faults[pick("fault", len(faults))]
 			sites := b.sites.byFault[f]
 			if len(sites) == 0 {
-				if try < 20 {
+				if try < 50 {
 					continue
 				}
 				f, sites = "delete", b.sites.byFault["delete"]
 			}
-			s := sites[rapid.IntRange(0, len(sites)-1).Draw(t, "site")]
+			s := sites[pick("site", len(sites))]
 			vs := variants(b.tree, f, s)
-			if f == "deep" {
-				vs = vs[:len(vs)-1] // the 1000-deep family is enumerated separately
+			arg := vs[pick("arg", len(vs))]
+			// known findings (stack overflows on cyclic parameter schemas) cost
+			// seconds each and hide nothing new: keep one in four of that shape
+			if f == "cycle" && try < 50 && pick("avoid", 4) != 0 {
+				under := false
+				for _, k := range b.tree.keyPath(s.Path) {
+					under = under || k == "parameters"
+				}
+				if under {
+					continue
+				}
 			}
-			arg := vs[rapid.IntRange(0, len(vs)-1).Draw(t, "arg")]
-			strict := rapid.IntRange(0, 3).Draw(t, "strict") == 0
-			return mutCase{Base: b.Rel, Path: s.Path, Key: s.Key, Fault: f, Arg: arg, Strict: strict}
+			return mutCase{Base: b.Rel, Path: s.Path, Key: s.Key, Fault: f, Arg: arg, Strict: pick("strict", 4) == 0}
 		}
 	}
 }
@@ -449,7 +481,7 @@ func regressionMutants() []mutCase {
 	add(refHolder, false, "cycle", "replace-root", "allOf-self")
 	add(ref, false, "cycle", "self", "parent", "grandparent", "root")
 	add(ref, false, "dangling", "missing", "suffix", "empty-frag", "no-hash", "bad-escape", "tilde", "slash-end")
-	add(pet, false, "deep", "array:200", "object:200", "allOf:200", "oneOf:200", "addprops:200")
+	add(pet, false, "deep", deepVariants...)
 	add(max, false, "num", "-1", "1e400", "99999999999999999999", "x", "1.5", "-0", "1e-400", "9223372036854775808")
 	add(maxLen, false, "num", "-1", "1e400", "99999999999999999999", "x", "1.5", "-0", "9223372036854775808")
 	add(nil, false, "retype", "seq-wrap", "str", "seq-empty")
@@ -567,9 +599,6 @@ func enumerateMutants(u *vk.Unit, check func(mutCase) *vk.Finding) {
 					continue
 				}
 				vs := variants(b.tree, f, s)
-				if f == "deep" {
-					vs = vs[:len(vs)-1]
-				}
 				arg := vs[(h>>8)%uint64(len(vs))]
 				c := mutCase{Base: b.Rel, Path: s.Path, Key: s.Key, Fault: f, Arg: arg, Strict: (h>>20)%4 == 0}
 				if exhaustive {
@@ -581,18 +610,13 @@ func enumerateMutants(u *vk.Unit, check func(mutCase) *vk.Finding) {
 			}
 		}
 	}
-	// the separately labelled 1000-deep family: a handful per run
-	deepBases := eligibleBases(8 << 10)
-	for i, b := range deepBases {
-		sites := b.sites.byFault["deep"]
-		if len(sites) == 0 || i%shards != shard {
-			continue
+	// the separately labelled expensive deep family (tens of CPU seconds each): one per shard
+	if deepBases := eligibleBases(8 << 10); len(deepBases) > 0 && shard < 8 {
+		b := deepBases[hash64(seed, shard, "deepbase")%uint64(len(deepBases))]
+		if sites := b.sites.byFault["deep"]; len(sites) > 0 {
+			s := sites[hash64(seed, shard, b.Rel)%uint64(len(sites))]
+			jobs <- mutCase{Base: b.Rel, Path: s.Path, Fault: "deep", Arg: deepExpensive[shard%len(deepExpensive)]}
 		}
-		if hash64(seed, b.Rel, "deep1000")%8 != 0 {
-			continue
-		}
-		s := sites[hash64(seed, b.Rel)%uint64(len(sites))]
-		jobs <- mutCase{Base: b.Rel, Path: s.Path, Fault: "deep", Arg: "array:1000"}
 	}
 	close(jobs)
 	wg.Wait()
